@@ -13,6 +13,9 @@ import (
 // ---- scalar helpers
 
 func (x *Exec) term(i Int) *Term {
+	if i.Atom != 0 {
+		unsupported("byte-level operation on an atom (text of a symbolic number)")
+	}
 	if i.S != nil {
 		return i.S
 	}
